@@ -268,6 +268,8 @@ def run(ctx):
     C07.r1_port_dependence(ctx)    # a domain-typed initial request is resolved through the same cache: the port is the requested one, not a cached one
     from . import C01 as _C01f, C03 as _C03f, C09 as _C09f
     _C01f.r8_single_forwarder(ctx)     # the forwarder passes each queued chunk on unchanged and in order: the length-prefixed datagram stream is neither merged nor reordered on its way to the wire
+    _C01f.r3_r4_recv_buffer(ctx)      # every complete frame in the receive buffer is dispatched before the loop waits for more input: the tail of a burst of datagrams does not wait for later traffic
+    _C03f.r2_peek_then_consume(ctx)   # the decoder answers `None` only when nothing was consumed: a frame behind a padding frame in the same read is handed out
     _C03f.r3_totality(ctx)            # a frame of any legal size is decoded: a maximum-size datagram travels in a frame of up to 65535 bytes
     _C09f.r3_recv_exits(ctx)
     _C01f.r17_fill_loops_write_at_the_cursor(ctx)   # a length prefix or datagram body cut by a frame boundary is reassembled in order
